@@ -263,9 +263,11 @@ def decode_number(data_raw: int, bit_offset: int, bit_length: int, signed: bool,
     # adjust resolution
     number_int *= resolution
 
-    if number_int < min_value:
+    # raw * resolution is rounded: a value exactly at a range limit may land one ulp outside it
+    tolerance = 1e-12 * abs(number_int) if isinstance(number_int, float) else 0
+    if number_int < min_value - tolerance:
         raise ValueError("Value below minimum allowed")
-    if number_int > max_value:
+    if number_int > max_value + tolerance:
         raise ValueError("Value above maximum allowed")
 
     return number_int
